@@ -48,8 +48,8 @@ UNPROVED = [
     "empty_init_sound (initOK => no read of an unfilled np.empty cell): stated as "
     "Mir.C15.empty_init_sound_statement, unproved; initOK itself is checked on the generated program and "
     "validated at run time by np.empty poisoning",
-    "hierarchy.evaluate, segment.evaluate, util.intersect_files: pure on valid inputs (runtime oracle) but not "
-    "provable by the path-insensitive analysis (listed in Mir.C15.unproved)",
+    "util.intersect_files: pure on valid inputs (runtime oracle) but not provable by the analysis, which does not "
+    "know that the path strings it stores are immutable (listed in Mir.C15.unproved)",
     "bit-identical repeatability of returned values is observed at run time, not modelled (the model proves "
     "every call sees unmodified arguments and unchanged global state)",
 ]
@@ -758,9 +758,10 @@ def _gen_history(rng, tier, shard, nshards, boost):
 
 # functions with a listed finding are kept out of the *history* sequences (they are exercised — and their
 # findings reproduced — at their own sites); everything else is fair game
-INIT_FLAGGED = {"separation.bss_eval_images_framewise"}
-KNOWN_IMPURE = {"melody.freq_to_voicing", "melody.to_cent_voicing", "melody.evaluate", "util.adjust_intervals",
-                "util.adjust_events", "chord.evaluate"}
+# (both sets are empty since the `fix:` commits c44e6a6, aa0fc9a, b910d54: every public function takes part in the
+# history sequences and in the observed-initok correspondence)
+INIT_FLAGGED = set()
+KNOWN_IMPURE = set()
 
 def _gen_history_module(module):
     """call sequences inside ONE module (a module-level cache or counter is the most plausible hidden state): many
